@@ -254,12 +254,48 @@ PROPS["C04"] = dict(
                  "lines shorter than bufio.Scanner's 64 KiB token limit (redis)"],
 )
 
+PROPS["C03"] = dict(
+    modules=["HT.Props.C03"],
+    streams=["c03iso"],
+    rule="one Honeytrap with ftp, telnet, smtp, redis, memcached, http, ldap and tftp configured (real Run()); sessions "
+         "with distinct fake client addresses on step-driven in-memory connections, the harness releasing one "
+         "request at a time and waiting until the handler is blocked reading again, so an interleaving is a "
+         "deterministic global order: per stream service every interleaving of every pair of 3 scripted sessions "
+         "(sampled beyond the tier's bound), sampled interleavings of three, the same script twice at once, and "
+         "histories of 1..4 earlier sessions then a probe; each session's transcript (per step) and events (all "
+         "fields but volatile ones) compared with the same session alone on a freshly built service; tftp: every "
+         "interleaving of two clients' upload datagrams, clients sharing a source port; ldap: every (sampled) "
+         "interleaving of two connections' bind/modify sequences - these two also through the Lean session model; "
+         "non-trivial = more than one session; distinct = distinct case line",
+    trusted=COMMON_TB + ["verif hook server/verif_hooks.go (VerifNew, VerifHandle)",
+                         "step-driven in-memory connections (request/response granularity); goroutine interleavings "
+                         "inside one step are the Go scheduler's and are not enumerated",
+                         "modelled, not verified: the session steps of the stream services other than ldap's bind state "
+                         "(their isolation is decided by the oracle runs, the theorem covers the keyed-table shape)"],
+    assumptions=["the ftp filesystem content and the per-IP rate limiters are shared by design (configuration-level state)"],
+)
+
 HOOK_COMMITS = ["0596fc6", "c47bf54", "a8020ca", "beeea88", "49bef1d", "2596f07"]
 
 NOT_BUILT = "check not built yet in this round (design in DESIGN.md section 7); not claimed until its theorems and correspondence stream exist"
 NOT_APPLICABLE = {("C%02d" % i): NOT_BUILT for i in range(1, 21)}
 
 MANIFEST_TEXT = {
+    "C03": dict(
+        text="Lean theorem: for every service whose sessions share at most a table with one slot per key and whose steps "
+             "touch only their own local state and their own key's slot, under every schedule (any number of sessions, any "
+             "interleaving at step granularity, any history before) a session whose key no other session has sees exactly "
+             "what it sees alone on a fresh service (induction over the schedule); the tftp upload table (keyed by client "
+             "address) and the ldap per-connection bind state are instances; counterexample theorems record the two defect "
+             "shapes (one slot for everybody: ldap as it was; a key two clients share). Tied to the real services by "
+             "deterministic step-level interleavings of scripted sessions through the real dispatcher, each session's "
+             "transcript and events compared with its solo run on a freshly built service.",
+        design_ref="DESIGN.md section 7, C03 and section 11",
+        note="Partial: the schedule is at request/response granularity; races inside one step (Go scheduler) are not "
+             "enumerated. ftp/smtp/telnet/redis/memcached/http session semantics are not modelled in Lean: their isolation "
+             "is decided by the oracle on the explored interleavings, the theorem gives the shape that guarantees it.",
+        technique="Lean 4 proof (non-interference by induction over schedules) + differential correspondence + solo-run oracle",
+    ),
     "C04": dict(
         text="Lean theorems: for every framing machine whose unit parser is monotone (a parse that succeeded succeeds "
              "identically when more bytes follow) and progresses, every segmentation of a byte stream - any number of "
